@@ -59,7 +59,7 @@ for v in (0, 1):
             12 + 4 + (12 if v == 0 else 16) + s + 1 + vv + 1 + m, max(s, vv, m) + 4))
 A(E("t", "emsg_v0_s1_v2_m0", "EmsgBox", "any_emsg::<1, 2, 0>(0)", "ref_emsg", 12 + 4 + 12 + 2 + 3, 7))
 A(E("q", "emsg_v1_utf8_m2", "EmsgBox", "any_emsg_utf8::<2>(1)", "ref_emsg", 12 + 4 + 16 + 4 + 2 + 2, 8))
-A(E("t", "emsg_v0_utf8_m0", "EmsgBox", "any_emsg_utf8::<0>(0)", "ref_emsg", 12 + 4 + 12 + 4 + 2, 8))
+A(E("q", "emsg_v0_utf8_m0", "EmsgBox", "any_emsg_utf8::<0>(0)", "ref_emsg", 12 + 4 + 12 + 4 + 2, 8))
 A(E("q", "tx3g", "Tx3gBox", "any_tx3g()", "ref_tx3g", 46, 14))
 A(E("q", "vpcc", "VpccBox", "any_vpcc()", "ref_vpcc", 20, 3))
 A(E("q", "vp09", "Vp09Box", "any_vp09()", "ref_vp09", 106, 34))
